@@ -13,7 +13,8 @@ S3 = 'S3 movegen::has_legal_moves -> symbolic bool'
 S4 = 'S4 core::str::from_utf8 -> reference UTF-8 automaton'
 S5 = 'S5 Board::calc_outcome -> symbolic outcome'
 S6 = 'S6 legal::Checker::is_legal -> abstract predicate'
-STUBSETS = {'none': [], 'panics': [], 's1': [S1], 's12': [S1, S2], 's123': [S1, S2, S3], 's13': [S1, S3], 's4': [S4], 's5': [S5],
+S7 = 'S7 str::is_ascii -> byte loop'
+STUBSETS = {'none': [], 'panics': [], 's1': [S1], 's12': [S1, S2], 's123': [S1, S2, S3], 's13': [S1, S3], 's4': [S4], 's47': [S4, S7], 's5': [S5],
             's126': [S1, S2, S6], 's1_utf8': [S1, S4], 's12_utf8': [S1, S2, S4]}
 
 FULL = 'FULL = every position accepted by Board::try_from (64 symbolic cells, side, rights, e.p. mark, both counters)'
@@ -156,7 +157,7 @@ for part, pc, pd in [('semi', 'UA_SEMI', 'semilegal reader <=> a semilegal move 
              props=['C10', 'C02'], extra_const=', {crate::c10::%s}' % pc)
 reg('c10_uci_parse_exact', 'C10', QT, 600, 6, 'every well-formed UTF-8 string of at most 6 bytes', 'c10::uci_parse_exact', unwind=8,
     props=['C10', 'C12'])
-reg('c10_uci_text_roundtrip', 'C10', T, 2400, 24, 'every UCI move value, through core::fmt', 'c10::uci_text_roundtrip', unwind=8,
+reg('c10_uci_text_roundtrip', 'C10', T, 2400, 24, 'every UCI move value, through core::fmt', 'c10::uci_text_roundtrip', 's47', unwind=8,
     props=['C10', 'C12'])
 fam_side('c10_uci_string_readers', 'C10', 'c10::uci_string_readers', 's12', 65, 3600, 14, FULL + ' x every UTF-8 string of at most 5 bytes',
          tiers=T, props=['C10', 'C02'])
@@ -187,7 +188,7 @@ for gk, gc, gd in GROUPS:
             'c09::san_from_move::<_, %s, %s, %d>' % (sc, gc, k), 's123', 66,
             bounds='' if k == 16 else 'GEN(2): at most 2 own men per kind, so at most one competing candidate', props=['C09'])
 
-reg('c09_san_simple_pawn_refused', 'C09', QT, 900, 8, 'the initial position x every Data::Simple value naming a pawn', 'c09::san_simple_pawn_refused', 's1', 66,
+reg('c09_san_simple_pawn_refused', 'C09', QT, 900, 8, 'the initial position x every Data::Simple value naming a pawn with destination e4 (any origin hints, capture flag)', 'c09::san_simple_pawn_refused', 's1', 66,
     props=['C09', 'C02'], gen_k=(1, 1))
 
 # ---------------------------------------------------------------- C12
@@ -197,8 +198,8 @@ reg('c12_color_parse', 'C12', QT, 600, 6, 'every UTF-8 string of at most 3 bytes
 reg('c12_cell_parse', 'C12', QT, 600, 6, 'every UTF-8 string of at most 3 bytes', 'c12::cell_parse', unwind=14, props=['C12', 'C20'])
 reg('c12_castling_parse', 'C12', QT, 600, 6, 'every UTF-8 string of at most 6 bytes', 'c12::castling_parse', unwind=8, props=['C12', 'C20'])
 reg('c12_castling_roundtrip', 'C12', QT, 900, 8, 'all 16 right sets through core::fmt', 'c12::castling_roundtrip', unwind=8, props=['C12', 'C20'])
-reg('c12_san_parse_total_5', 'C12', QT, 900, 8, 'every UTF-8 string of at most 5 bytes', 'c12::san_parse_total::<_, 5>', 's4', 9, props=['C12', 'C09'])
-reg('c12_san_parse_total_7', 'C12', T, 3600, 12, 'every UTF-8 string of at most 7 bytes', 'c12::san_parse_total::<_, 7>', 's4', 9, props=['C12', 'C09'])
+reg('c12_san_parse_total_5', 'C12', QT, 900, 8, 'every UTF-8 string of at most 5 bytes', 'c12::san_parse_total::<_, 5>', 's47', 9, props=['C12', 'C09'])
+reg('c12_san_parse_total_7', 'C12', T, 3600, 12, 'every UTF-8 string of at most 7 bytes', 'c12::san_parse_total::<_, 7>', 's47', 9, props=['C12', 'C09'])
 reg('c12_fen_board_field_10', 'C12', T, 3600, 14, 'FEN family (a): every space-free UTF-8 string of at most 10 bytes as the whole record',
     'c12::fen_board_field::<_, 10>', unwind=12)
 reg('c12_fen_board_end_5', 'C12', QT, 2400, 12, 'FEN family (c): 8/8/8/8/8/8/8/ followed by every space-free UTF-8 string of at most 5 bytes',
